@@ -306,8 +306,17 @@ func checkList(rc *regclient.RegClient, b *backend, w *world, live map[string]*a
 		annK, annV = "org.example.kind", []string{"x", "y"}[rng.Intn(2)]
 		opts = append(opts, scheme.WithReferrerMatchOpt(descriptor.MatchOpt{Annotations: map[string]string{annK: annV}}))
 	}
-	rl, err := rc.ReferrerList(ctx, b.ref(subject), opts...)
-	wit := map[string]any{"backend": b.key(), "history": hist, "subject": subject, "filter_artifact_type": at, "filter_annotation": annK + "=" + annV}
+	// the subject may be named by digest alone or by a pinned reference (tag and digest): both name the same
+	// manifest, and everything the client remembers about the subject has to be found under either spelling
+	rSubj, form := b.ref(subject), "by-digest"
+	for i := 0; i < 2 && i < len(w.subjects); i++ {
+		if w.subjects[i] == subject && rng.Intn(3) == 0 {
+			rSubj, form = b.ref(fmt.Sprintf("img%d", i)).AddDigest(subject), "by-tag-and-digest"
+		}
+	}
+	run.Count("lists_"+form, 1)
+	rl, err := rc.ReferrerList(ctx, rSubj, opts...)
+	wit := map[string]any{"backend": b.key(), "history": hist, "subject": subject, "subject_reference": rSubj.CommonName(), "filter_artifact_type": at, "filter_annotation": annK + "=" + annV}
 	filt := "unfiltered"
 	if at != "" {
 		filt = "artifactType"
